@@ -105,6 +105,7 @@ def shares(P, pz, E):
         t2 = np.where(r1, (j2 - 1) / (j2 * j1), np.where(r2, (j2 - 1) / j2, np.nan))
         need = np.where(r1, (j1 > 0) & (j2 > 0), (j2 > 0)) & (r1 | r2)
         need &= ~((t1 > 0) & (f12 == 0)) & (w[:, 2] > 0)
+        need &= a2                                         # below its OWN edge a sub-shell is never ionised, whatever the order of the tabulated edges
         s2 = np.where(need, kdiv * ((t2 + t1 * f12) * w[:, 2]), np.nan)
         # L3
         r3 = ~a1 & ~a2 & a3
@@ -115,6 +116,7 @@ def shares(P, pz, E):
         need &= ~((t2 > 0) & (f23 == 0))
         need &= ~((t1 > 0) & ((f13 + fp13 == 0) | (f12 == 0) | (f23 == 0)))
         need &= w[:, 3] > 0
+        need &= a3
         s3 = np.where(need, kdiv * ((t3 + t2 * f23 + t1 * (f13 + fp13 + f12 * f23)) * w[:, 3]), np.nan)
     S = np.stack([sK, s1, s2, s3], axis=1)
     S[~(S > 0)] = np.nan                                  # a share of exactly 0 (placeholder jump 1.0) => failure expected
